@@ -25,6 +25,8 @@ type Options struct {
 	// TypeDocTimeStamp writes /Type /DocTimeStamp into the (first) signature dictionary whatever its SubFilter:
 	// a dictionary whose /Type and /SubFilter disagree (an attacker chooses both).
 	TypeDocTimeStamp bool
+	// PSS makes the signer of the (first) signature use RSASSA-PSS instead of RSA PKCS#1 v1.5 (CMS based SubFilters).
+	PSS bool
 }
 
 // SigInfo locates one signature inside Doc.Bytes. All offsets are absolute file offsets.
@@ -33,6 +35,7 @@ type SigInfo struct {
 	FieldObjNr int    // object number of the signature field / widget
 	FieldName  string // /T of the field
 	SubFilter  string
+	PSS        bool // signed with RSASSA-PSS
 	ByteRange  [4]int64
 	// ByteRangeStart is the offset of '[' of the /ByteRange array, ByteRangeEnd one past its ']'.
 	// The array text has a fixed width (space padded) so it can be rewritten in place, see PatchByteRange.
@@ -166,10 +169,10 @@ func sigDictBody(subFilter string, hexDigits int, contentsLast bool, when time.T
 }
 
 // reserveHex returns the number of hex digits to reserve for the SubFilter's /Contents and the digits really needed.
-func reserveHex(subFilter string, exact bool, when time.Time) (reserved, needed int, err error) {
+func reserveHex(subFilter string, exact bool, when time.Time, pss bool) (reserved, needed int, err error) {
 	// All inputs that influence the encoded length are fixed per process (RSA-2048 signatures are always 256
 	// bytes, UTCTime / GeneralizedTime have constant width), so a dry run yields the exact size.
-	probe, err := makeSignature(subFilter, []byte("probe"), when)
+	probe, err := makeSignatureOpt(subFilter, pss, []byte("probe"), when)
 	if err != nil {
 		return 0, 0, err
 	}
@@ -235,7 +238,7 @@ func Build(o Options) (*Doc, error) {
 	d := &Doc{When: when}
 
 	// ---- revision 1 ----
-	reserved, _, err := reserveHex(o.SubFilter, o.Exact, when)
+	reserved, _, err := reserveHex(o.SubFilter, o.Exact, when, o.PSS)
 	if err != nil {
 		return nil, err
 	}
@@ -260,7 +263,7 @@ func Build(o Options) (*Doc, error) {
 
 	b := w.buf.Bytes()
 	si := SigInfo{
-		ObjNr: objSig1, FieldObjNr: objField1, FieldName: "Signature1", SubFilter: o.SubFilter,
+		ObjNr: objSig1, FieldObjNr: objField1, FieldName: "Signature1", SubFilter: o.SubFilter, PSS: o.PSS,
 		ByteRangeStart: start + int64(brAt), ByteRangeEnd: start + int64(brAt) + byteRangeWidth + 2,
 		ContentsStart: start + int64(contAt), ContentsEnd: start + int64(contAt) + int64(reserved) + 2,
 		RevisionEnd: int64(len(b)),
@@ -277,7 +280,7 @@ func Build(o Options) (*Doc, error) {
 	}
 
 	// ---- revision 2: incremental update ----
-	reserved2, _, err := reserveHex(o.Second, o.Exact, when)
+	reserved2, _, err := reserveHex(o.Second, o.Exact, when, false)
 	if err != nil {
 		return nil, err
 	}
@@ -362,7 +365,7 @@ func writeSignature(b []byte, si *SigInfo, br [4]int64, when time.Time) (hexLen 
 	if err != nil {
 		return 0, err
 	}
-	sig, err := makeSignature(si.SubFilter, data, when)
+	sig, err := makeSignatureOpt(si.SubFilter, si.PSS, data, when)
 	if err != nil {
 		return 0, err
 	}
